@@ -143,8 +143,21 @@ func samePoints(a, b []point) bool {
 	return true
 }
 
+// own reports whether this shard owns the subtree below the first two choices.
+func (e *Explorer) own(c0, c1 int) bool {
+	if e.NShards <= 1 {
+		return true
+	}
+	return (c0*31+c1)%e.NShards == e.Shard
+}
+
 // Explore runs the search. It returns false if it was cut short by the
 // deadline or an infrastructure error.
+//
+// Sharding: the subtree below the first two choices (c0, c1) belongs to shard
+// (c0*31+c1) mod NShards. Executions a shard needs only to discover the
+// alternatives at depth 1 are "probes": they are run but neither counted nor
+// judged nor expanded below depth 1.
 func (e *Explorer) Explore() bool {
 	if e.NShards <= 0 {
 		e.NShards = 1
@@ -156,14 +169,8 @@ func (e *Explorer) Explore() bool {
 		prefix []int
 		from   int // first point whose alternatives are expanded
 	}
-	var stack []item
-	if e.Shard == 0 {
-		stack = append(stack, item{nil, 0})
-	} else {
-		stack = append(stack, item{[]int{e.Shard}, 0})
-	}
+	stack := []item{{nil, 0}}
 	complete := true
-	first := true
 
 	for len(stack) > 0 {
 		if e.R.Expired() {
@@ -174,41 +181,61 @@ func (e *Explorer) Explore() bool {
 		it := stack[len(stack)-1]
 		stack = stack[:len(stack)-1]
 
-		x, infra := e.runOnce(it.prefix)
-		if infra != "" {
-			if first && e.Shard != 0 {
-				// this shard's first alternative does not exist: nothing to do
-				return true
+		var x *Exec
+		var infra string
+		known := len(it.prefix) >= 2 // only owned subtrees are pushed below depth 1
+		if !known {
+			x, infra = e.runOnceIn(it.prefix, NewRun("", ""))
+			if infra != "" {
+				e.R.InfraError("%s: %s (prefix %v)", e.Name, infra, it.prefix)
+				return false
 			}
-			e.R.InfraError("%s: %s (prefix %v)", e.Name, infra, it.prefix)
-			return false
 		}
-		first = false
-		e.execs++
-		e.R.Add("executions", 1)
-		e.R.Add("choice_points", int64(len(x.points)))
-		e.R.Max("max_depth", int64(len(x.points)))
-		e.R.Mark("outcomes", x.obs)
+		c0, c1 := 0, 0
+		if known {
+			c0, c1 = it.prefix[0], it.prefix[1]
+		} else {
+			if len(x.choices) > 0 {
+				c0 = x.choices[0]
+			}
+			if len(x.choices) > 1 {
+				c1 = x.choices[1]
+			}
+		}
+		probe := !e.own(c0, c1)
+		if !probe {
+			// (for short prefixes the scratch run above only discovered c0, c1)
+			x, infra = e.runOnce(it.prefix)
+			if infra != "" {
+				e.R.InfraError("%s: %s (prefix %v)", e.Name, infra, it.prefix)
+				return false
+			}
+			e.execs++
+			e.R.Add("executions", 1)
+			e.R.Add("choice_points", int64(len(x.points)))
+			e.R.Max("max_depth", int64(len(x.points)))
+			e.R.Mark("outcomes", x.obs)
 
-		recheck := len(x.failed) > 0 || e.execs%e.RecheckEvery == 0
-		if recheck {
-			reps := 1
-			if len(x.failed) > 0 {
-				reps = 2
-			}
-			for k := 0; k < reps; k++ {
-				y, infra2 := e.runOnceIn(x.choices, NewRun("", ""))
-				if infra2 != "" || y.obs != x.obs || !samePoints(x.points, y.points) || len(y.failed) != len(x.failed) {
-					e.R.InfraError("%s: nondeterministic re-execution of %v (%s)", e.Name, x.choices, infra2)
-					return false
+			recheck := len(x.failed) > 0 || e.execs%e.RecheckEvery == 0
+			if recheck {
+				reps := 1
+				if len(x.failed) > 0 {
+					reps = 2
 				}
-				e.R.Add("determinism_rechecks", 1)
+				for k := 0; k < reps; k++ {
+					y, infra2 := e.runOnceIn(x.choices, NewRun("", ""))
+					if infra2 != "" || y.obs != x.obs || !samePoints(x.points, y.points) || len(y.failed) != len(x.failed) {
+						e.R.InfraError("%s: nondeterministic re-execution of %v (%s)", e.Name, x.choices, infra2)
+						return false
+					}
+					e.R.Add("determinism_rechecks", 1)
+				}
 			}
-		}
-		for _, f := range x.failed {
-			f.Choices = x.choices
-			f.Render = x.render
-			e.R.Violate(f)
+			for _, f := range x.failed {
+				f.Choices = x.choices
+				f.Render = x.render
+				e.R.Violate(f)
+			}
 		}
 
 		// expand alternatives after the prefix
@@ -220,15 +247,18 @@ func (e *Explorer) Explore() bool {
 			}
 		}
 		for i := len(x.points) - 1; i >= it.from; i-- {
+			if probe && i >= 2 {
+				continue
+			}
 			p := x.points[i]
 			if p.kind == DevK && devBefore[i]+1 > e.DevBound {
-				if p.n > 1 {
+				if p.n > 1 && !probe {
 					e.R.Add("alternatives_beyond_dev_bound", int64(p.n-1))
 				}
 				continue
 			}
-			for alt := p.n - 1; alt > x.choices[i]; alt-- {
-				if i == 0 && e.NShards > 1 && alt%e.NShards != e.Shard {
+			for alt := p.n - 1; alt >= 1; alt-- {
+				if i == 1 && !e.own(c0, alt) {
 					continue
 				}
 				np := make([]int, i+1)
